@@ -249,5 +249,21 @@ def _df(shard):
             if key not in seen:
                 seen.add(key)
                 out["failures"].append(fw.fail(key, f"df_timeshift(fs={fs}, seconds={seconds}, columns={cols}, inplace={inplace}, suffix={suffix!r}): {prob}", case))
-    out["samples"].append({"df options": "fs x seconds x columns x inplace x suffix", "N": N})
+    # shifts with many decimals, tiny shifts, and large shifts with a small fractional part (N large enough to keep interior samples)
+    N2 = 2600
+    df2 = pd.DataFrame({"a": records.id1(N2), "b": records.id3(N2) * 3.0})
+    for fs, seconds in ((1.0, 0.123456789), (1.0, 1e-7), (1.0, 3e-9), (100.0, 20.0001), (1.0, 2000.01), (1.0, -1200.004), (3.0, 400.0000123), (1.0, 7.000000000000001)):
+        for inplace in (False, True):
+            out["evals"] += 1
+            out["nontrivial"] += 1
+            r = df_timeshift(df2, fs, seconds, columns=["a", "b"], inplace=inplace)
+            for c in ("a", "b"):
+                want = np.asarray(timeshift(df2[c].to_numpy().copy(), seconds * fs), dtype=float)
+                got = np.asarray(r[c if inplace else f"{c}_shifted"].to_numpy(), dtype=float)
+                if not np.allclose(got, want, rtol=0, atol=1e-13):
+                    key = "df/shift-value"
+                    if key not in seen:
+                        seen.add(key)
+                        out["failures"].append(fw.fail(key, f"df_timeshift(fs={fs}, seconds={seconds!r}): column {c} is not timeshift(column, seconds*fs={seconds * fs!r}) (max diff {float(np.max(np.abs(got - want))):.3e})", dict(shard)))
+    out["samples"].append({"df options": "fs x seconds x columns x inplace x suffix", "N": N, "fine shifts": [0.123456789, 1e-7, 2000.01]})
     return out
